@@ -108,10 +108,18 @@ func (c *Ctx) elemsTerm(r string, sl *Val, whole bool) Term {
 
 // havocLocations replaces the listed locations by unconstrained values.
 func (f *Frame) havocLocations(st *State, sc *Scope, locs []*Expr) {
+	var ls []Loc
+	for _, le := range locs {
+		ls = append(ls, sc.evalLoc(le))
+	}
+	f.havocLocs(st, ls)
+}
+
+// havocLocs: the same for already evaluated locations.
+func (f *Frame) havocLocs(st *State, locs []Loc) {
 	c := f.c
 	var quantLocs []Loc
-	for _, le := range locs {
-		l := sc.evalLoc(le)
+	for _, l := range locs {
 		switch l.kind {
 		case "cell":
 			if isAggregate(l.ty) {
@@ -342,6 +350,9 @@ func (f *Frame) loopWrites(L *Loop) (mems map[string]string, maps map[string]*ty
 				return
 			}
 			key := fnKey(callee)
+			if _, ok := f.c.W.externFrames[key]; ok {
+				return
+			}
 			if w, ok := f.c.W.modelWrites[key]; ok {
 				for _, m := range w {
 					mems[m] = ""
@@ -447,6 +458,10 @@ func (f *Frame) cutLoop(L *Loop, invs []Clause) {
 		return
 	}
 	lname := fmt.Sprintf("loop%d", L.Ordinal)
+	if f.loopEntry == nil {
+		f.loopEntry = map[int]*State{}
+	}
+	f.loopEntry[L.Ordinal] = st.clone()
 	// 1. invariant holds on entry
 	sc := f.loopScope(L, st)
 	for _, inv := range invs {
@@ -456,6 +471,10 @@ func (f *Frame) cutLoop(L *Loop, invs []Clause) {
 	}
 	// 2. havoc
 	pre := st.clone()
+	if f.loopEntry == nil {
+		f.loopEntry = map[int]*State{}
+	}
+	f.loopEntry[L.Ordinal] = pre
 	var lm []*Expr
 	declared := false
 	if f.contract != nil {
